@@ -453,12 +453,12 @@ fn ising_scenarios(out: &mut Out, gen: &mut SplitMix64, thorough: bool) {
         // the very first calls hit the empty operator string
         // 9 = serde round trip with the RNG, 10 = through the RNG-less SerializeQmcGraph: right after
         // construction, right after an RVB sweep, and later at random points
-        let mut script: Vec<u8> = vec![9, 2, 3, 10, 1, 0, 3, 9];
+        let mut script: Vec<u8> = vec![9, 8, 11, 2, 3, 10, 1, 0, 3, 9, 11];
         for ci in 0..calls {
             if !alive {
                 break;
             }
-            let what = if ci < script.len() { script[ci] } else { gen.below(11) as u8 };
+            let what = if ci < script.len() { script[ci] } else { gen.below(12) as u8 };
             let lab = |s: &str| format!("{}:call{}:{}", tag, ci, s);
             alive = match what {
                 0 => observe(out, step_kind, &lab("timestep"), &mut g, snap_ig, |g| {
@@ -522,6 +522,19 @@ fn ising_scenarios(out: &mut Out, gen: &mut SplitMix64, thorough: bool) {
                     }
                     let _ = ok;
                     true
+                }
+                11 => {
+                    // degenerate parameters of the sampler-level entry points
+                    observe(out, diag_kind, &lab("single_diagonal_step(beta=0)"), &mut g, snap_ig, |g| g.single_diagonal_step(0.0))
+                        && observe(out, "isteps", &lab("timesteps(0)"), &mut g, snap_ig, |g| {
+                            g.timesteps(0, beta);
+                        })
+                        && observe(out, step_kind, &lab("timestep(beta=0)"), &mut g, snap_ig, |g| {
+                            g.timestep(0.0);
+                        })
+                        && observe(out, "rvb", &lab("single_rvb_sweep(Some(0))"), &mut g, snap_ig, |g| {
+                            g.single_rvb_sweep(Some(0));
+                        })
                 }
                 10 => {
                     use qmc::sse::qmc_ising::serialization::DefaultSerializeQmcGraph;
@@ -643,11 +656,60 @@ fn manager_level(out: &mut Out, tag: &str, m0: &FastOps, state: &[bool], gen: &m
             *s = Some(FastOps::new_from_ops(nvars, ops.clone()));
         });
     }
-    // cluster update with an explicit weight function (the f64 branch), on the clone
+    // degenerate parameters: empty ranges, cursor borrowed and handed straight back, fold without change
+    let e = gen.below(cutoff as u64) as usize;
     let mut st = state.to_vec();
+    let ok = observe(out, "sweepops", &lab(&format!("mutate_ops({},{})[empty range]", e, e)), &mut m, |m| snap(m), |m| {
+        m.mutate_ops(e, e, (), |_, _, _, t| (None, t));
+    }) && observe(out, "diag", &lab(&format!("mutate_ps({},{})[empty range]", e, e)), &mut m, |m| snap(m), |m| {
+        m.mutate_ps(e, e, (), |_, _, t| (None, t));
+    }) && observe(out, "sweepallargs", &lab("get_empty_args(All)+return_args"), &mut m, |m| snap(m), |m| {
+        let args = m.get_empty_args(SubvarAccess::All);
+        m.return_args(args);
+    }) && observe(out, "sweeppsvar", &lab("get_empty_args(Varlist)+return_args"), &mut m, |m| snap(m), |m| {
+        let args = m.get_empty_args(SubvarAccess::Varlist(&vars));
+        m.return_args(args);
+    }) && observe(out, "nopool", &lab("itime_fold/iterate_ops/verify"), &mut m, |m| snap(m), |m| {
+        let mut s2 = st.clone();
+        let _ = m.itime_fold(&mut s2, |a: usize, _s| a + 1, 0);
+        let _ = m.iterate_ops(0, cutoff, 0usize, |_, _, _, c| c + 1);
+        let _ = m.verify(&st);
+    });
+    if !ok {
+        return;
+    }
+    // every public cluster entry point, with flip probability 0, tiny, 1/2 and 1 (a probability > 1 is refused
+    // by rand's gen_bool with a panic, i.e. not accepted), on the clone — and on an empty manager
+    let probs = [0.0f64, 8.673617379884035e-19, 0.5, 1.0];
     let mut rng = SplitMix64::new(gen.next());
-    observe(out, "cluster", &lab("flip_each_cluster_rng(weights)"), &mut m, |m| snap(m), |m| {
-        m.flip_each_cluster_rng(0.5, &mut rng, &mut st, Some(|_n: &FastOpNode| 1.0));
+    let first = gen.below(4) as usize;
+    for (i, variant) in ["ising_symmetry", "rng(None)", "rng(weights)"].iter().enumerate() {
+        let prob = probs[(first + i) % 4];
+        let pl = ["0", "tiny", "1d2", "1"][(first + i) % 4];
+        out.count(&format!("cluster_prob_{}", pl));
+        let l = lab(&format!("flip_each_cluster_{}(prob={})", variant, pl));
+        let alive = observe(out, "cluster", &l, &mut m, |m| snap(m), |m| match i {
+            0 => {
+                m.flip_each_cluster_ising_symmetry_rng(prob, &mut rng, &mut st);
+            }
+            1 => {
+                m.flip_each_cluster_rng(prob, &mut rng, &mut st, None::<fn(&FastOpNode) -> f64>);
+            }
+            _ => {
+                m.flip_each_cluster_rng(prob, &mut rng, &mut st, Some(|_n: &FastOpNode| 1.0));
+            }
+        });
+        if !alive {
+            return;
+        }
+    }
+    let mut empty = FastOps::new_from_nvars(nvars);
+    let mut st0 = state.to_vec();
+    observe(out, "cluster", &lab("flip_each_cluster_ising_symmetry(prob=0)[empty manager]"), &mut empty, |m| snap(m), |m| {
+        m.flip_each_cluster_ising_symmetry_rng(0.0, &mut rng, &mut st0);
+    });
+    observe(out, "loop", &lab("make_loop_update_with_rng[empty manager]"), &mut empty, |m| snap(m), |m| {
+        m.make_loop_update_with_rng(None, |_v: &[usize], _b: usize, _i: &[bool], _o: &[bool]| 1.0, &mut st0, &mut rng);
     });
 }
 
@@ -767,12 +829,12 @@ fn generic_scenarios(out: &mut Out, gen: &mut SplitMix64, thorough: bool) {
         let diag_kind = if hb { "heatbath" } else { "diag" };
         let mut alive = true;
         // 8 = serde round trip of the sampler (right after construction, then at random points)
-        let mut script: Vec<u8> = vec![8, 2, 3, 0, 8];
+        let mut script: Vec<u8> = vec![8, 7, 9, 2, 3, 0, 8, 9];
         for ci in 0..calls {
             if !alive {
                 break;
             }
-            let what = if ci < script.len() { script[ci] } else { gen.below(9) as u8 };
+            let what = if ci < script.len() { script[ci] } else { gen.below(10) as u8 };
             let lab = |s: &str| format!("{}:call{}:{}", tag, ci, s);
             alive = match what {
                 0 => observe(out, "gstep", &lab("timestep"), &mut q, snap_gq, |q| {
@@ -829,6 +891,15 @@ fn generic_scenarios(out: &mut Out, gen: &mut SplitMix64, thorough: bool) {
                         })
                     }
                 }
+                9 => {
+                    observe(out, diag_kind, &lab("diagonal_update(beta=0)"), &mut q, snap_gq, |q| q.diagonal_update(0.0))
+                        && observe(out, "gsteps", &lab("timesteps(0)"), &mut q, snap_gq, |q| {
+                            q.timesteps(0, beta);
+                        })
+                        && observe(out, "nopool", &lab("imaginary_time_fold"), &mut q, snap_gq, |q| {
+                            let _ = q.imaginary_time_fold(|a: usize, s| a + s.len(), 0);
+                        })
+                }
                 8 => {
                     let before = vec![snap_gq(&q)];
                     let mut slot: Option<GQ> = None;
@@ -854,6 +925,97 @@ fn generic_scenarios(out: &mut Out, gen: &mut SplitMix64, thorough: bool) {
                 script.clear();
             }
         }
+    }
+}
+
+/// LARGE runs: operator strings of several thousand slots, so that the pooled vectors sized by the
+/// string length / number of clusters / number of constant operators (`boundaries`, `flips`,
+/// `flips_weights`, `constant_ps`, …) are handed back with a capacity far beyond anything the small
+/// scenarios reach (a `reset` that treats big buffers differently is only visible here).
+fn large_scenarios(out: &mut Out, gen: &mut SplitMix64, thorough: bool) {
+    // (sites, beta, h, heat bath, rvb, steps)
+    let mut runs: Vec<(usize, f64, f64, bool, bool, usize)> = vec![(96, 48.0, 0.0, false, true, 5)];
+    if thorough {
+        runs.push((128, 32.0, 0.5, false, true, 5));
+        runs.push((64, 64.0, 0.0, true, false, 5));
+        runs.push((112, 40.0, -0.25, true, true, 4));
+    }
+    for (n, beta, h, hb, rvb, steps) in runs {
+        let lat = Lattice { name: format!("ring{}", n), nvars: n, edges: (0..n).map(|i| (i, (i + 1) % n)).collect() };
+        let js: Vec<f64> = (0..n).map(|i| if i % 7 == 3 { -1.0 } else { 1.0 }).collect();
+        let seed = gen.next();
+        // start with a roomy cutoff so that the string is long from the first sweep on
+        let cutoff = (3.0 * beta * n as f64) as usize;
+        let tag = format!("large:ising:ring{}:G1d1:h{}:b{}:hb{}:rvb{}:c{}:s{}", n, show_f(h), show_f(beta), hb as u8, rvb as u8, cutoff, seed);
+        let mut g = build_ising(&lat, &js, 1.0, h, cutoff, seed, hb, rvb);
+        out.count("scen_large_ising");
+        for ci in 0..steps {
+            let lab = |s: &str| format!("{}:call{}:{}", tag, ci, s);
+            if !observe(out, "istep", &lab("timestep"), &mut g, snap_ig, |g| {
+                g.timestep(beta);
+            }) {
+                break;
+            }
+            let e = out.stats.entry("large_max_oplist_n".to_string()).or_insert(0);
+            *e = (*e).max(g.get_n() as u64);
+        }
+        if g.get_n() < 4200 {
+            // the point of the run is lost: say so (shows up in the evidence, not an alarm)
+            out.count("large_run_too_small");
+        }
+        let lab = |s: &str| format!("{}:{}", tag, s);
+        let _ = observe(out, "rvb", &lab("single_rvb_sweep(Some(4))"), &mut g, snap_ig, |g| {
+            g.single_rvb_sweep(Some(4));
+        }) && observe(out, "cluster", &lab("single_cluster_step"), &mut g, snap_ig, |g| {
+            g.single_cluster_step();
+        });
+        let m0 = g.get_manager_ref().clone();
+        manager_level(out, &lab("mgr"), &m0, &g.clone_state(), gen);
+    }
+    // generic sampler with loop updates (and cluster updates) on a long string
+    let mut gruns: Vec<(&str, usize, f64, usize)> = vec![];
+    if thorough {
+        gruns.push(("gtfim", 96, 32.0, 4));
+        gruns.push(("heis", 64, 48.0, 4));
+    } else {
+        gruns.push(("gtfim", 80, 32.0, 3));
+    }
+    for (kind, n, beta, steps) in gruns {
+        let mut t = vec![];
+        for i in 0..n {
+            if kind == "gtfim" {
+                t.push((vec![0.0, 2.0, 2.0, 0.0], vec![i, (i + 1) % n], true));
+                t.push((vec![1.0, 1.0, 1.0, 1.0], vec![i], false));
+            } else {
+                let mut m = vec![0.0; 16];
+                m[0b0101] = 1.0;
+                m[0b1010] = 1.0;
+                m[0b0110] = 1.0;
+                m[0b1001] = 1.0;
+                t.push((m, vec![i, (i + 1) % n], false));
+            }
+        }
+        let gm = GModel { name: format!("{}{}", kind, n), nvars: n, terms: t };
+        let seed = gen.next();
+        let tag = format!("large:generic:{}:b{}:loops1:s{}", gm.name, show_f(beta), seed);
+        let mut q = match build_generic(&gm, seed, true, false) {
+            Some(q) => q,
+            None => continue,
+        };
+        q.set_cutoff((3.0 * beta * n as f64) as usize);
+        out.count("scen_large_generic");
+        for ci in 0..steps {
+            let lab = |s: &str| format!("{}:call{}:{}", tag, ci, s);
+            if !observe(out, "gstep", &lab("timestep"), &mut q, snap_gq, |q| {
+                q.timestep(beta);
+            }) {
+                break;
+            }
+            let e = out.stats.entry("large_max_oplist_n".to_string()).or_insert(0);
+            *e = (*e).max(q.get_n() as u64);
+        }
+        let lab = |s: &str| format!("{}:{}", tag, s);
+        let _ = observe(out, "loop", &lab("loop_update"), &mut q, snap_gq, |q| q.loop_update());
     }
 }
 
@@ -1358,6 +1520,7 @@ fn main() {
             ising_scenarios(&mut out, &mut gen, a.thorough);
             generic_scenarios(&mut out, &mut gen, a.thorough);
             tempering_scenarios(&mut out, &mut gen, a.thorough);
+            large_scenarios(&mut out, &mut gen, a.thorough);
         }
         "soak" => soak(&mut out, &mut gen, a.thorough),
         "bc" => {
